@@ -824,6 +824,120 @@ def subst_int_lets(root):
     return map_tree(root, fn)
 
 
+def _first_use(s, i):
+    """If the first thing statement `s` evaluates (everything before it being pure) is the local with id `i`, return a setter
+    that replaces that occurrence; else None."""
+    def go(e, setter):
+        if not isinstance(e, dict):
+            return None, True
+        k = e.get("k")
+        if k == "local":
+            return ((e, setter), False) if e.get("id") == i else (None, True)
+        if k in ("lit", "def"):
+            return None, True
+        if k == "block":
+            if not e.get("stmts") and "expr" in e and "unsafe" not in e and "label" not in e:
+                return go(e["expr"], lambda v, e=e: e.__setitem__("expr", v))
+            return None, False
+        seq = []
+        if k == "let":
+            if "init" in e and "els" not in e:
+                seq = [("init", None)]
+            else:
+                return None, False
+        elif k in ("field", "cast", "ref", "ret", "un"):
+            seq = [("e", None)] if "e" in e else []
+        elif k == "bin":
+            if e.get("op") in ("And", "Or") and "callee" not in e:
+                r, p = go(e["l"], lambda v, e=e: e.__setitem__("l", v))
+                return r, False
+            seq = [("l", None), ("r", None)]
+        elif k in ("assign", "assignop"):
+            if not pure(e["l"]):
+                return None, False
+            seq = [("r", None)]
+        elif k == "call":
+            if "f" in e:
+                return None, False
+            seq = [("args", j) for j in range(len(e.get("args", [])))]
+        elif k == "tuple":
+            seq = [("es", j) for j in range(len(e["es"]))]
+        elif k == "index":
+            seq = [("e", None), ("i", None)]
+        elif k == "match":
+            r, p = go(e["scrut"], lambda v, e=e: e.__setitem__("scrut", v))
+            return r, False
+        elif k == "if":
+            r, p = go(e["c"], lambda v, e=e: e.__setitem__("c", v))
+            return r, False
+        elif k == "letexpr":
+            r, p = go(e["init"], lambda v, e=e: e.__setitem__("init", v))
+            return r, False
+        else:
+            return None, False
+        for key, j in seq:
+            if j is None:
+                child = e[key]
+                st = (lambda v, e=e, key=key: e.__setitem__(key, v))
+            else:
+                child = e[key][j]
+                st = (lambda v, e=e, key=key, j=j: e[key].__setitem__(j, v))
+            r, is_pure = go(child, st)
+            if r is not None:
+                return r, False
+            if not is_pure:
+                return None, False
+        return None, pure(e)
+    r, _ = go(s, None)
+    return r
+
+
+def single_use_temps(root):
+    """`let t = E; S` where S evaluates `t` first and `t` occurs nowhere else -> S with E in place of t (E may have effects:
+    it is still evaluated at the same moment).  Not part of the global normalisation (it would rename too much of what the rules
+    report); rules that expect a single expression apply it locally (anstyle_common.single_expr)."""
+    def fn(n):
+        if n.get("k") != "block":
+            return n
+        seq = list(n.get("stmts", []))
+        tail = n.get("expr")
+        changed = True
+        while changed:
+            changed = False
+            items = seq + ([tail] if tail is not None else [])
+            for idx, s in enumerate(seq):
+                if not (isinstance(s, dict) and s.get("k") == "let" and "els" not in s and s.get("pat", {}).get("k") == "pbind" and "init" in s):
+                    continue
+                if "Ref" in str(s["pat"].get("mode", "")) or idx + 1 >= len(items):
+                    continue
+                init = hir.simp(s["init"])
+                if not (isinstance(init, dict) and init.get("k") == "call" and not init.get("ctor")):
+                    continue          # only call results: other temporaries are handled by the integer / alias passes
+                i = s["pat"]["id"]
+                uses = sum(len(_uses_in(t, i)) for t in items[idx + 1:])
+                if uses != 1:
+                    continue
+                nxt = copy.deepcopy(items[idx + 1])
+                hit = _first_use(nxt, i)
+                if hit is None or hit[1] is None:
+                    continue
+                hit[1](init)
+                if idx + 1 < len(seq):
+                    seq = seq[:idx] + [nxt] + seq[idx + 2:]
+                else:
+                    seq = seq[:idx]
+                    tail = nxt
+                changed = True
+                break
+        m = dict(n, stmts=seq)
+        if tail is not None:
+            m["expr"] = tail
+        else:
+            m.pop("expr", None)
+        return m
+    return map_tree(root, fn)
+
+
 _OPASSIGN = {"Add": "AddAssign", "Sub": "SubAssign", "Mul": "MulAssign", "BitOr": "BitOrAssign", "BitAnd": "BitAndAssign", "BitXor": "BitXorAssign",
              "Shl": "ShlAssign", "Shr": "ShrAssign", "Div": "DivAssign", "Rem": "RemAssign"}
 
